@@ -66,11 +66,15 @@ def check(prop, tier, seed, replay_path=None, selftest=False, keep=False):
             mcs.append(m)
             log = open(os.path.join(scratch.dir, "mc-" + cfg["mc"].replace(".cfg", ""), "tlc.log")).read()
             scripts = scratch.path("scripts.txt")
-            lines = [l for l in log.splitlines() if "SCRIPT" in l]
+            # (TLC wraps long values over several lines: split on the marker, not on line ends)
+            lines = ["SCRIPT " + " ".join(re.findall(r'<<"[a-z]+", \d+, \d+>>', chunk.split("Model checking completed")[0]))
+                     for chunk in re.split(r'<<\s*"SCRIPT",', log)[1:]]
             if not lines:
                 raise V.Inconclusive("TLC emitted no scripts")
             with open(scripts, "w") as f:
                 f.write("\n".join(lines) + "\n")
+            # the same machine with the named deviation of the legacy google-v1 flavour (a Get cannot decode a late-bound field)
+            mcs.append(V.tlc_mc(scratch, "Extensions", "MCExtensions_nodecode.cfg", workers=4))
         cells = None
         if prop == "C18":
             # the adapter model: requirement holds for json.go as found; three realistic wiring / ordering slips are expected violations;
